@@ -12,6 +12,9 @@
 #include <limits>
 #include <sstream>
 
+#include <locale>
+#include <vector>
+
 #include "cctz/time_zone.h"
 #include "trace.h"
 
@@ -73,8 +76,22 @@ static std::string env_entry(const std::string& spec, const std::string& input, 
   return s;
 }
 
+// A process-wide C++ locale whose character classification differs from the C table (the "CSV" idiom: ',' and ';' are
+// space, blank and tab are not): parse()'s grammar is fixed - what it skips as white space does not depend on it.
+struct CsvCtype : std::ctype<char> {
+  static const mask* table() {
+    static std::vector<mask> v(classic_table(), classic_table() + table_size);
+    v[(unsigned char)','] |= space; v[(unsigned char)';'] |= space;
+    v[(unsigned char)' '] &= ~space; v[(unsigned char)'\t'] &= ~space; v[(unsigned char)'\n'] &= ~space;
+    v[(unsigned char)'5'] |= space; v[(unsigned char)'A'] &= ~(alpha | upper);
+    return &v[0];
+  }
+  explicit CsvCtype(std::size_t refs = 0) : std::ctype<char>(table(), false, refs) {}
+};
+
 int main(int argc, char** argv) {
   if (argc < 5) return 2;
+  const std::locale csv(std::locale::classic(), new CsvCtype);
   vt::install_trap_handler();
   std::ifstream in(argv[1]);
   int nsh = atoi(argv[3]);
@@ -121,6 +138,17 @@ int main(int argc, char** argv) {
     int ub;
     bool ok = false;
     VT_GUARD(ub, ok = detail::parse(fmt, input, tz, &t, &fs));
+    int gl = 1;
+    if (!ub) {   // the same call with the other global locale installed: the same outcome
+      TP t2;
+      detail::femtoseconds fs2(0);
+      bool ok2 = false;
+      int ub2;
+      std::locale::global(csv);
+      VT_GUARD(ub2, ok2 = detail::parse(fmt, input, tz, &t2, &fs2));
+      std::locale::global(std::locale::classic());
+      if (ub2 || ok2 != ok || (ok && (t2 != t || fs2 != fs))) gl = 0;
+    }
     std::string env = "[";
     bool first = true;
     if (input.find('\0') == std::string::npos)
@@ -129,7 +157,7 @@ int main(int argc, char** argv) {
     env += "]";
     out.emit("{\"e\":\"Parse\",\"fmt\":" + bj(fmt) + ",\"input\":" + bj(input) + ",\"z\":" + std::to_string(z) + ",\"zoff\":" + std::to_string(zoff) +
              ",\"ok\":" + (ok && !ub ? "1" : "0") + ",\"t\":" + W(ok && !ub ? t.time_since_epoch().count() : 0) + ",\"fs\":" +
-             W(ok && !ub ? fs.count() : 0) + ",\"env\":" + env + ",\"ub\":" + std::to_string(ub) + "}");
+             W(ok && !ub ? fs.count() : 0) + ",\"env\":" + env + ",\"gl\":" + std::to_string(gl) + ",\"ub\":" + std::to_string(ub) + "}");
   }
   }
   fprintf(stderr, "drv_parse: %llu events\n", (unsigned long long)out.count);
